@@ -9,13 +9,111 @@ VERIF = os.path.dirname(os.path.dirname(os.path.abspath(__file__)))
 # property id -> (level category, technique, level text, level note, design ref)
 CHECKS = {
     "C01": ("exploration",
-            "differential runtime monitor: engine move list vs independent reference rules model on every visited position",
+            "differential runtime monitor: engine move list and check verdict vs an independent reference rules model (refchess) on every visited position",
             "Every position of a DFS over ~160 corpus roots, biased random playouts, synthesised legal positions "
             "(incl. extreme material) and five hazard families enumerated completely over their parameter space "
             "(en passant x king x slider, castling x attacker, pin geometry, promotion x checker, double check) is "
             "compared move-for-move and flag-for-flag with the reference. Sampled, not exhaustive, outside the families.",
             "Trusts refchess (checked against published perft counts at setup). Legal = the property's definition.",
             "DESIGN.md section 4 C01"),
+    "C02": ("exploration",
+            "online trace checker over make/null/undo histories: every observable field vs refchess after each operation, snapshot equality after each take-back, three board views cross-checked",
+            "Search-shaped operation histories (nesting up to 40) from corpus, playout and synthesised roots; tens of "
+            "millions of operations per run with counters proving that castling both ways, en passant, all promotion "
+            "pieces, rook-on-home captures and null moves with a pending target were all exercised.",
+            "Trusts refchess. The en-passant target field is judged by 'some single recording convention explains every "
+            "observation'.",
+            "DESIGN.md section 4 C02"),
+    "C03": ("exploration",
+            "invariant hook after every operation: carried key == from-scratch key == xor of the 838 components recovered through the public API; run-wide key<->position collision maps; exhaustive component distinctness",
+            "Same histories as C02. Components are checked exhaustively (pairwise distinct, non-zero); key/position "
+            "injectivity is claimed only for the (millions of) positions in the run-wide map.",
+            "Independent 128-bit digest for position identity; map capped (size reported in evidence).",
+            "DESIGN.md section 4 C03"),
+    "C04": ("exploration",
+            "runtime monitoring of the real search under the overflow/assert-instrumented ('checked') and optimised builds: returned move vs refchess legality, every panic attributed to its case; process-level runs of the real binary",
+            "Chains of searches sharing one PersistentState across positions x depth/movetime/clock/stop limits x hash "
+            "sizes {0..64 MB} x histories (games played through, >256 searches on one table, resets/resizes), in both "
+            "arithmetic regimes.",
+            "Termination is decided only up to logical bounds; a watchdog firing is inconclusive. Deep-recursion stack "
+            "use is only observable in the process-level stage.",
+            "DESIGN.md section 4 C04"),
+    "C06": ("exploration",
+            "round-trip monitor on live legal positions + grammar-aware/byte-level fuzzing of the reader under catch_unwind in checked and optimised builds, with an independent rank-width oracle",
+            "Write->read->compare every field and key on legal positions; canonical text under each en-passant "
+            "convention read->write; millions of corrupted FENs (width shifts keeping 64 squares, totals != 64, counter "
+            "extremes, missing/extra fields, non-ASCII, random strings) must yield Ok or Err, and Err for any 8-rank "
+            "placement with a rank not describing 8 squares.",
+            "Inputs are valid UTF-8 (the API takes &str).",
+            "DESIGN.md section 4 C06"),
+    "C07": ("exploration",
+            "exhaustive differential check of every table entry against coordinate-arithmetic geometry, with a bounds assertion hook (H4) natively and Miri in the thorough tier",
+            "All 107,648 (square, relevant-blocker-subset) slider cases x 5 occupancies differing only in irrelevant bits, "
+            "all leaper/pawn entries, all 64x64 between pairs: the finite space is enumerated completely.",
+            "Oracle written with coordinate arithmetic only (no bitboard shifts).",
+            "DESIGN.md section 4 C07"),
+    "C08": ("exploration",
+            "offline checker over recorded search reports: every reported line replayed on refchess, depth sequence and mate-distance/line-length/checkmate consistency",
+            "Every SearchInfo of tens of thousands of searches (mates of length 1-7 for and against the root side, used "
+            "tables, tiny trees, fifty-move edges) is replayed.",
+            "Trusts refchess.",
+            "DESIGN.md section 4 C08"),
+    "C09": ("fault_enumeration",
+            "fault injection at every polling point (hook H1): for each sampled search the stop flag is made to read true from poll k for every k = 1..N, with monitors on legality, positions entered after the stop, input position, and follow-up searches on the same tables",
+            "Exhaustive in the stop index k for each sampled (position, depth, prior table state); the triples are sampled.",
+            "The polling points are the program's own; time-limit expiry takes the same return path.",
+            "DESIGN.md section 4 C09"),
+    "C10": ("exploration",
+            "differential runtime monitor: MovePicker stream vs refchess legal-move multiset under randomised and adversarially coinciding hash/killer/counter/history contents",
+            "Millions of (position, table contents, ply) configurations incl. remembered moves that are not legal here and "
+            "forced coincidences (hash = killer, counter = killer, counter = hash); full and captures-only streams.",
+            "Hash move is legal or none, as the property states.",
+            "DESIGN.md section 4 C10"),
+    "C11": ("exploration",
+            "online checker along game histories: repetition verdict vs plain scan of recorded position signatures, fifty-move verdict vs clock and legal-move existence; exhaustive material sub-space",
+            "Histories steered to shuffle (hundreds of thousands of repetitions incl. at the window edge, FEN starts with "
+            "non-zero clocks, castling-right loss inside the window); K v K and K+minor v K over all placements.",
+            "With null moves only the sound direction is demanded; two-minor cases are left to the engine.",
+            "DESIGN.md section 4 C11"),
+    "C12": ("exploration",
+            "replay monitor: full search transcripts compared between two runs from identical state (second under machine load) and between a fresh state and an arbitrary history followed by reset",
+            "Hundreds of chains per run (incl. >255 generations, nearly full small tables, resize then reset).",
+            "Transcript excludes time and nps.",
+            "DESIGN.md section 4 C12"),
+    "C14": ("exploration",
+            "invariant check on the computed limits (hook H2) over a dense grid run completely plus millions of random clock tuples, in checked and optimised builds; CPU-clock-judged timed searches on the real binary",
+            "Grid of ~49k tuples + random tuples down to 1 ms remaining, with/without the other side's time, moves-to-go 1 "
+            "and u32::MAX, overhead up to exactly half.",
+            "f32 rounding tolerance of one ulp of the remaining time, stated in DESIGN.md.",
+            "DESIGN.md section 4 C14"),
+    "C15": ("exploration",
+            "invariant hook after every operation of the C02 histories: carried accumulators == recomputation, eval along the path == eval of the position read from FEN",
+            "Same histories as C02 with the same feature counters.",
+            "Evaluation overflow in extreme material is C16's business.",
+            "DESIGN.md section 4 C15"),
+    "C16": ("exploration",
+            "metamorphic runtime monitor (colour mirror), range assertion under the checked build, and blend bracketing using the engine's own pure-phase assessments; exhaustive cube for the blend function",
+            "Positions incl. nine queens a side / phase far above 24; every (mg, eg, phase) in a cube enumerated plus grid "
+            "and random triples over the 16-bit range.",
+            "Pure assessments obtained by forcing the phase to 24 / 0 on a clone.",
+            "DESIGN.md section 4 C16"),
+    "C18": ("exploration",
+            "differential runtime monitor: SAN text vs refchess SAN for every legal move, uniqueness within the position, check suffix vs actual check, parse(format(m)) == m under catch_unwind",
+            "Positions dense in like pieces (all four ambiguity classes counted), capturing promotions, checking castles, "
+            "pawn captures beside same-file capturers.",
+            "Trusts refchess' SAN writer (spot-checked at setup).",
+            "DESIGN.md section 4 C18"),
+    "C19": ("exploration",
+            "history + executable model with uniquely identified values: every probe must be explainable by the set of entries the stated replacement policy admits; fill indicator vs counted slots; all sizes incl. 0",
+            "Thousands of operation histories with deliberately colliding keys, >255 generations, resets/resizes; size "
+            "sweep over the advertised range; checked and optimised builds (ASan and Miri in the thorough tier).",
+            "Search identity = the 8-bit generation the API exposes.",
+            "DESIGN.md section 4 C19"),
+    "C20": ("exploration",
+            "metamorphic (colour mirror) + property oracles (undefended, victim >= attacker) + differential exact swap-list under every tie order",
+            "Every legal non-en-passant capture of positions dense around one square, with x-ray attackers counted.",
+            "Swap list ignores pins; ambiguous cases are skipped and counted.",
+            "DESIGN.md section 4 C20"),
 }
 
 NOT_YET = "check not built yet (work in progress; see DESIGN.md section 4)"
